@@ -470,8 +470,10 @@ class ChargingNetwork(BaseSimObj):
             schedule_matrix = schedule_matrix[:, time_indices]
 
         if linear:
+            # Absolute value of the load coefficients (not of their signed sum), so
+            # that the linearization is conservative for mixed-sign constraints.
             return np.abs(
-                self.constraint_matrix[constraint_indices] @ schedule_matrix
+                np.abs(self.constraint_matrix[constraint_indices]) @ schedule_matrix
             ).astype("complex")
         else:
             # build vector of phase angles on EVSE
